@@ -844,12 +844,42 @@ func (e *Env) lineBreaksAdvance(c *schema.Ctx) {
 	pkg := e.Prog.Pkg(load.PkgDecorator)
 	info := pkg.TypesInfo
 	n := 0
+	// the two spacing routines and the restorer methods they call (a line break may live in a helper)
+	var fds []*ast.FuncDecl
+	seenFd := map[*ast.FuncDecl]bool{}
 	for _, name := range []string{"applySpace", "applyDecorations"} {
 		fd := load.FuncDecl(pkg, "FileRestorer", name)
 		if fd == nil || fd.Body == nil {
 			e.Run.Violation("R-CURSOR", name+" exists", "", "function missing")
 			continue
 		}
+		fds = append(fds, fd)
+		seenFd[fd] = true
+	}
+	for i := 0; i < len(fds) && i < 12; i++ {
+		ast.Inspect(fds[i].Body, func(nd ast.Node) bool {
+			call, ok := nd.(*ast.CallExpr)
+			if !ok {
+				return true
+			}
+			fn := calleeFunc(info, call)
+			if fn == nil || fn.Pkg() != pkg.Types {
+				return true
+			}
+			if sig, ok := fn.Type().(*types.Signature); !ok || sig.Recv() == nil {
+				return true
+			}
+			for _, d := range load.AllFuncDecls(pkg) {
+				if info.Defs[d.Name] == types.Object(fn) && d.Body != nil && !seenFd[d] && d.Name.Name != "restoreNode" {
+					seenFd[d] = true
+					fds = append(fds, d)
+				}
+			}
+			return true
+		})
+	}
+	for _, fd := range fds {
+		name := fd.Name.Name
 		ca, la := e.stateAliases(info, fd)
 		for _, blk := range e.lineBreakBlocks(info, fd) {
 			n++
